@@ -237,6 +237,12 @@ def gen_cases(rec, rng, tier):
         yield {'kind': 'cfg', 'cls': 'random_grammar', 'ref': RG, 'ns': ns}
         RG = cfgg.random_cnf(rng, rng.randint(1, 5), rng.randint(0, 6), nt=rng.randint(1, 2))
         yield {'kind': 'cfg', 'cls': 'random_cnf', 'ref': RG, 'ns': ns if not thorough else [0, 1, 2, 3, 5]}
+        yield {'kind': 'cfg', 'cls': 'multichar_variable_names', 'ref': cfgg.multichar_renaming(rng, RG), 'ns': ns}
+        RG2 = cfgg.random_grammar(rng, rng.randint(2, 5), rng.randint(2, 8), max_rhs=3, nt=2)
+        yield {'kind': 'cfg', 'cls': 'multichar_variable_names', 'ref': cfgg.multichar_renaming(rng, RG2), 'ns': ns}
+        yield {'kind': 'cfg', 'cls': 'ambiguous_name_concatenation', 'ref': cfgg.ambiguous_concat_cnf(rng), 'ns': [0, 1, 2, 3]}
+        for tw in cfgg.start_twins(RG2)[:2]:
+            yield {'kind': 'cfg', 'cls': 'same_rules_other_start_variable', 'ref': tw, 'ns': [0, 2, 3]}
         RP = pdag.random_pda(rng, rng.randint(1, 4), rng.randint(1, 2), rng.randint(0, 3), rng.randint(1, 8))
         lim = rng.choice([3, 10, 50, 1000])
         yield {'kind': 'pda', 'cls': 'random_pda', 'ref': RP, 'ns': [0, 1, 2, 3] if lim == 1000 else ns, 'limit': lim, 'eps': rng.choice(['', '_'])}
